@@ -46,6 +46,7 @@ pub fn exec(op: &Value) -> Value {
         "hash" => op_hash(op),
         "tbl" => by_width!(w, op_tbl, op),
         "load" => op_load(op),
+        "distcmd" => by_width!(w, op_distcmd, op),
         "aln" => op_aln(op),
         "idx" => op_idx(op),
         "ref" => by_width!(w, op_ref, op),
@@ -441,6 +442,36 @@ fn op_tbl<IntT: for<'a> UInt<'a>>(op: &Value) -> Value {
         }
     }
     json!({"outs": outs})
+}
+
+// distcmd: the whole `ska distance` pipeline in process (threads = 1), output parsed
+fn op_distcmd<IntT: for<'a> UInt<'a>>(op: &Value) -> Value {
+    let mut arr: MergeSkaArray<IntT> = array_from_json(&op["table"]);
+    let path = format!(
+        "{}/skav-dist-{}-{:?}.txt",
+        if std::path::Path::new("/dev/shm").is_dir() { "/dev/shm" } else { "/tmp" },
+        std::process::id(),
+        std::thread::current().id()
+    );
+    ska::generic_modes::distance(
+        &mut arr,
+        &Some(path.clone()),
+        op["min_freq"].as_f64().unwrap_or(0.0),
+        bool_of(op, "filt_ambig"),
+        1,
+    );
+    let text = std::fs::read_to_string(&path).unwrap_or_default();
+    let _ = std::fs::remove_file(&path);
+    let mut rows: Vec<Value> = Vec::new();
+    for line in text.lines().skip(1) {
+        let f: Vec<&str> = line.split('\t').collect();
+        if f.len() == 4 {
+            let d: f64 = f[2].parse().unwrap_or(-1.0);
+            let m: f64 = f[3].parse().unwrap_or(-1.0);
+            rows.push(json!([f[0], f[1], (d * 100.0).round() as i64, (m * 100000.0).round() as i64]));
+        }
+    }
+    json!({"rows": rows})
 }
 
 // ---------------------------------------------------------------------------
